@@ -82,11 +82,11 @@ Definition kind_of (s : site) : site_kind :=
   end.
 
 (* AssertType instructions emitted for the hint (2: compile_assign_to_map_finish emits the assert of a
-   map-pattern entry twice; ret_early / yield_second / multi_temp / ret_explicit have two emission points) *)
+   map-pattern entry twice; ret_early / yield_second / multi_temp have two emission points; ret_explicit had two until /repo fix 086fc95) *)
 Definition asserts_emitted (s : site) : N :=
   match s with
   | S_match | S_match_ignored | S_match_second_arm | S_match_or_first | S_match_or_second | S_match_nested | S_match_multi | S_match_guard | S_match_no_else | S_match_map | S_catch | S_catch_ignored | S_catch_second | S_catch_finally | S_catch_runtime_error => 0
-  | S_multi_temp | S_let_map | S_let_map_rebind | S_let_map_second | S_multi_map | S_for_map | S_ret_explicit | S_ret_early | S_yield_second => 2
+  | S_multi_temp | S_let_map | S_let_map_rebind | S_let_map_second | S_multi_map | S_for_map | S_ret_early | S_yield_second => 2
   | _ => 1
   end.
 
